@@ -55,6 +55,19 @@ Definition binds (p : ptype) (a : argexpr) : bool :=
   | FRRef => negb (ref_related (pt_base p) (ae_base a)) && converts (ae_base a) (pt_base p)
   end.
 
+(* static_cast<P>(a) for an lvalue a: what sigc::retype does to every argument *)
+Definition downcast (d s : base) : bool := match d, s with TD, TB => true | _, _ => false end.
+Definition explicit_converts (s d : base) : bool :=
+  converts s d || match s, d with TPB, TPD => true | _, _ => false end.
+Definition explicit_ok (p : ptype) (a : argexpr) : bool :=
+  let related := ref_related (pt_base p) (ae_base a) || downcast (pt_base p) (ae_base a) in
+  match pt_form p with
+  | FVal => explicit_converts (ae_base a) (pt_base p)
+  | FLRef => related && negb (ae_const a)
+  | FCRef => related || converts (ae_base a) (pt_base p)        (* a temporary needs an implicit conversion *)
+  | FRRef => if related then negb (ae_const a) else converts (ae_base a) (pt_base p)
+  end.
+
 Definition result_ok (rf r : rtype) : bool :=
   match rf, r with
   | None, None => true
@@ -76,7 +89,8 @@ Inductive functor_ty :=
 | TMemBound (obj_const meth_const : bool) (ps : list ptype) (r : rtype)   (* mem_fun(obj, &C::m) *)
 | TBindLast (f : functor_ty) (v : base)                              (* sigc::bind(f, value of type v) *)
 | THideLast (f : functor_ty)                                         (* sigc::hide(f) *)
-| THideReturn (f : functor_ty).                                      (* sigc::hide_return(f) *)
+| THideReturn (f : functor_ty)                                       (* sigc::hide_return(f) *)
+| TRetype (f : functor_ty).                                          (* sigc::retype(f): f a ptr_fun / mem_fun / slot *)
 
 Fixpoint forallb2 {A B} (p : A -> B -> bool) (l1 : list A) (l2 : list B) : bool :=
   match l1, l2 with
@@ -92,6 +106,7 @@ Fixpoint result_of (f : functor_ty) : rtype :=
   | TBindLast g _ => result_of g
   | THideLast g => result_of g
   | THideReturn _ => None
+  | TRetype g => result_of g
   end.
 
 (* C05's criterion: the arguments ... *)
@@ -102,6 +117,13 @@ Fixpoint callable_args (f : functor_ty) (args : list argexpr) : bool :=
   | TBindLast g v => callable_args g (args ++ [mkAE v false])          (* the stored copy, as T_type& *)
   | THideLast g => match args with [] => false | _ => callable_args g (removelast args) end
   | THideReturn g => callable_args g args
+  | TRetype g =>
+      (* every argument is static_cast to the declared parameter type of the typed functor *)
+      match g with
+      | TFun ps _ => forallb2 explicit_ok ps args
+      | TMemBound oc mc ps _ => (mc || negb oc) && forallb2 explicit_ok ps args
+      | _ => false                                   (* retype() only accepts ptr_fun / mem_fun / slot *)
+      end
   end.
 
 (* ... and the result *)
@@ -132,6 +154,13 @@ Fixpoint lib_call_args (M : mtable) (f : functor_ty) (deduced : bool) (args : li
       match a with [] => false | _ => lib_call_args M g true (removelast a) end
   | THideReturn g =>
       lib_call_args M g true (tpass (mode_of M "retype_return_functor<void>") deduced args)
+  | TRetype g =>
+      let a := tpass (mode_of M "retype_functor") deduced args in
+      match g with
+      | TFun ps _ => forallb2 explicit_ok ps a
+      | TMemBound oc mc ps _ => (mc || negb oc) && forallb2 explicit_ok ps a
+      | _ => false
+      end
   end.
 
 Definition lib_call (M : mtable) (f : functor_ty) (deduced : bool) (args : list argexpr) (r : rtype) : bool :=
@@ -144,7 +173,7 @@ Definition lib_accepts (M : mtable) (sig_args : list ptype) (r : rtype) (f : fun
 
 Definition tmodes_ok (M : mtable) : bool :=
   forallb (fun k => match mode_of M k with ByValue => false | _ => true end)
-    ["adaptor_functor"; "bound_mem_functor"; "bind_functor<-1>"; "hide_functor"; "retype_return_functor<void>"].
+    ["adaptor_functor"; "bound_mem_functor"; "bind_functor<-1>"; "hide_functor"; "retype_return_functor<void>"; "retype_functor"].
 
 Definition all_bases : list base := [TInt; TLong; TDouble; TBool; TB; TD; TU; TPB; TPD].
 Definition all_forms : list form := [FVal; FLRef; FCRef; FRRef].
